@@ -404,8 +404,8 @@ theorem parseLine_take (b : Bed) (N : Nat) (h3 : 3 ≤ N) (h12 : N ≤ 12)
     (hcs : InR b.chromStart) (hce : InR b.chromEnd) (hsc : InR b.score)
     (hts : InR b.thickStart) (hte : InR b.thickEnd) (hbc : InR b.blockCount)
     (hsz : ∀ i ∈ b.blockSizes, InR i) (hst : ∀ i ∈ b.blockStarts, InR i)
-    (hbs : ((if N > 10 then b.blockSizes else []).length : Int) = (if N > 9 then b.blockCount else 0))
-    (hbst : ((if N > 11 then b.blockStarts else []).length : Int) = (if N > 9 then b.blockCount else 0)) :
+    (hbs : N > 10 → (b.blockSizes.length : Int) = b.blockCount)
+    (hbst : N > 11 → (b.blockStarts.length : Int) = b.blockCount) :
     parseLine ((allFields b).take N) =
       some ⟨(N : Int), b.chrom, b.chromStart, b.chromEnd,
         if N > 3 then b.name else [], if N > 4 then b.score else 0,
@@ -645,8 +645,8 @@ theorem lineOK_fields (b : Bed) (N : Nat) (h3 : 3 ≤ N) (h12 : N ≤ 12)
     (hcs : InR b.chromStart) (hce : InR b.chromEnd) (hsc : InR b.score)
     (hts : InR b.thickStart) (hte : InR b.thickEnd) (hbc : InR b.blockCount)
     (hsz : ∀ i ∈ b.blockSizes, InR i) (hst : ∀ i ∈ b.blockStarts, InR i)
-    (hbs : ((if N > 10 then b.blockSizes else []).length : Int) = (if N > 9 then b.blockCount else 0))
-    (hbst : ((if N > 11 then b.blockStarts else []).length : Int) = (if N > 9 then b.blockCount else 0)) :
+    (hbs : N > 10 → (b.blockSizes.length : Int) = b.blockCount)
+    (hbst : N > 11 → (b.blockStarts.length : Int) = b.blockCount) :
     LineOK N (joinWith TAB ((allFields b).take N))
       ⟨(N : Int), b.chrom, b.chromStart, b.chromEnd,
         if N > 3 then b.name else [], if N > 4 then b.score else 0,
